@@ -141,19 +141,34 @@ var keptState = map[string]string{
 
 func keptStateRule(p *load.Program, run *report.Run, pkgs []string) {
 	run.Rule("kept-state-inventory", "every reference-typed field that a method of the package creates on first use and keeps (if x.f == nil / len(x.f) != n { x.f = ... }, or x.f.Store/CompareAndSwap on a sync/atomic cell) is in the inventory of kept state with the rule that covers its contents; an unlisted one is undecided")
-	lints.LazyState(p, run, pkgs, keptState)
+	// buffers cached in atomic cells are decided by their own rule; a cell it discharges is covered
+	inv := map[string]string{}
+	for k, v := range keptState {
+		inv[k] = v
+	}
+	for cell, why := range cachedBuffers(p, run, pkgs) {
+		if _, listed := inv[cell]; listed {
+			continue
+		}
+		if why == "" {
+			inv[cell] = "a cached buffer; ownership and clearing are decided by cached-buffer-exclusive-and-cleared"
+		} else {
+			inv[cell] = "reported by cached-buffer-exclusive-and-cleared"
+		}
+	}
+	lints.LazyState(p, run, pkgs, inv)
 }
 
 // Kept-state inventory per property (histories: repeated batches, runs, reuse).
 func C06kept(p *load.Program, run *report.Run) { keptStateRule(p, run, []string{"ot"}) }
 func C10kept(p *load.Program, run *report.Run) {
+	// no floor: an inventory may become empty (keeping less state is not a finding)
 	keptStateRule(p, run, []string{"gmw"})
-	run.Floor("kept-fields", 1)
 }
 func C20kept(p *load.Program, run *report.Run) { keptStateRule(p, run, []string{"vole", "bmr"}) }
 func C17kept(p *load.Program, run *report.Run) {
 	keptStateRule(p, run, []string{"circuit"})
-	run.Floor("kept-fields", 2)
+	run.Floor("kept-fields", 1)
 }
 func C11kept(p *load.Program, run *report.Run) { keptStateRule(p, run, []string{"p2p"}) }
 func C18kept(p *load.Program, run *report.Run) { keptStateRule(p, run, []string{"sha2pc"}) }
